@@ -18,7 +18,7 @@ point between two persistence events of every workload".
 * `C08_kill_safe_events` — the same, phrased over the emitted `FsOp` sequence cut after any
   number `n` of persistence events.
 * `C08_syscall_statement` is the same claim for cuts between any two *system calls*; it is
-  **false** (finding F17): `z.OpenMmapFile` creates a log file with `open(O_CREAT)` and sizes it
+  **false** (finding F22): `z.OpenMmapFile` creates a log file with `open(O_CREAT)` and sizes it
   with a second call, `z.MmapFile.Delete` truncates to 0 before unlinking, and `Open` refuses a
   zero-length `.mem` / `.vlog` file (`C08_syscall_counterexample`).
 -/
@@ -82,7 +82,7 @@ theorem C08_kill_safe_events (R : ViewRel) (c : Cfg) (h : List Sched) (hok : His
   rw [exec_fs, ← atoms_take] at this
   exact this
 
-/-! ### the syscall-level statement is false (F17) -/
+/-! ### the syscall-level statement is false (F22) -/
 
 def isError {ε α : Type} : Except ε α → Bool
   | .error _ => true
@@ -95,29 +95,29 @@ def C08_syscall_statement : Prop :=
 
 /-- the witness: a memtable rotation, killed between `open(O_CREAT)` and `ftruncate` of the new
     `.mem` file (inside `z.OpenMmapFile`): `Open` answers "while opening fid: 2 … Create a new
-    file". Replay: corpus/C08/f17.ops. -/
-def f17History : List Sched := [.flushReq, .w, .w]
+    file". Replay: corpus/C08/f22.ops. -/
+def f22History : List Sched := [.flushReq, .w, .w]
 
 def errOf {α : Type} : Except RecErr α → Option RecErr
   | .error e => some e
   | .ok _ => none
 
-theorem C08_f17_witness :
-    errOf (recover false (crashKill ((MState.init {}).fs.run (((MState.init {}).p.atoms f17History).flatten.take 1))))
+theorem C08_f22_witness :
+    errOf (recover false (crashKill ((MState.init {}).fs.run (((MState.init {}).p.atoms f22History).flatten.take 1))))
       = some (.zeroLengthLog (.mem 2)) := by
   decide
 
 theorem C08_syscall_counterexample : ¬ C08_syscall_statement := by
   intro h
-  have h1 := h {} f17History 1
-  have h2 := C08_f17_witness
-  cases hr : recover false (crashKill ((MState.init {}).fs.run (((MState.init {}).p.atoms f17History).flatten.take 1))) with
+  have h1 := h {} f22History 1
+  have h2 := C08_f22_witness
+  cases hr : recover false (crashKill ((MState.init {}).fs.run (((MState.init {}).p.atoms f22History).flatten.take 1))) with
   | error e => rw [hr] at h1; simp [isError] at h1
   | ok r => rw [hr] at h2; simp [errOf] at h2
 
-/-- the second half of F17: a kill between `ftruncate(0)` and `unlink` inside
+/-- the second half of F22: a kill between `ftruncate(0)` and `unlink` inside
     `z.MmapFile.Delete` of a flushed WAL -/
-theorem C08_f17_witness_delete :
+theorem C08_f22_witness_delete :
     isError (recover false (crashKill ((MState.init {}).fs.run
       (((MState.init {}).p.atoms [.flushReq, .w, .w, .w, .w, .f]).flatten.take 5))) ) = true := by
   decide
